@@ -11,9 +11,9 @@ LEVEL = "exploration"
 RULE = ("(read-only) for families x configuration classes (tags x rated power x refused-block subsets x battery) x transports: a "
         "phase of VALID setter calls is followed by every monitoring call (connect/discover, read_device_info, read_runtime_data x2, "
         "read_sensor of listed ids, read_setting of every setting, read_settings_data, get_grid_export_limit, get_operation_modes, "
-        "get_operation_mode, get_ongrid_battery_dod); every frame the simulated inverter decodes during the monitoring phase must "
+        "get_operation_mode, get_ongrid_battery_dod, raw ids beyond 16 bits; over Modbus/TCP also with keep-alive off and randomly refused connection attempts); every frame the simulated inverter decodes during the monitoring phase must "
         "be read-class (Modbus fc 03, AA55 01xx); (invalid arguments) every integer in [-300, 300] and samples up to +-70000 for "
-        "export limit, DoD, eco power and eco SoC outside their valid intervals, and random unknown setting ids: zero write-class "
+        "export limit, DoD, eco power and eco SoC outside their valid intervals, random unknown setting ids and ids of runtime sensors used as setting ids: zero write-class "
         "frames (fc 06/16, AA55 02xx/03xx), ValueError where documented; settings of newer firmware on an inverter whose probes were rejected; "
         "a setter with lost datagrams running concurrently with monitoring calls must cause exactly lost+1 write frames; distinct = distinct (family, configuration, call) and "
         "(setter, argument) tuples")
